@@ -1085,7 +1085,11 @@ class C10Executor(Executor):
 
     def get_index(self, st, base, idx, node):
         if isinstance(base, VExt) and base.sort == "PathCounts" and isinstance(idx, VStr):
-            return [(st, VInt(PCOUNT(idx.t)))]          # Counter[key] (0 for a missing key)
+            if not base.t.eq(COUNTER7):                  # a plain dict filled by the counting pass: a key is present iff it was counted
+                st = self.fork_raise(st, PCOUNT(idx.t) < 1, "KeyError")
+                if st is None:
+                    return []
+            return [(st, VInt(PCOUNT(idx.t)))]          # Counter[key]: 0 for a missing key
         if isinstance(base, VExt) and base.sort == "FolderMap" and isinstance(idx, VInt):
             k = ops.int_term(idx)
             st = self.fork_raise(st, z3.Not(HASF(k)), "KeyError")
@@ -1948,6 +1952,7 @@ def m_seq_startswith(ex, st, obj, args, kwargs, node):
 
 
 PCOUNT = z3.Function("entries_resolving_to_path", S, I)
+COUNTER7 = z3.Const("path_counter_object", ext_sort("PathCounts"))      # the collections.Counter form of the count (missing key -> 0, no KeyError)
 NORMPATH = z3.Function("os_path_normpath", S, S)
 
 
@@ -1983,7 +1988,7 @@ def new_counter(ex, st, args, kwargs, node):
         cond, elt = v.tag[1](j)
         if isinstance(elt, VStr) and z3.simplify(elt.t).eq(z3.simplify(NORMPATH(FNAME(FINFO(j))))) and \
                 z3.simplify(cond).eq(z3.simplify(z3.Not(ISDIR(FINFO(j))))):
-            return [(st, VExt("PathCounts"))]
+            return [(st, VExt("PathCounts", COUNTER7))]
     return ex.havoc_call(st, "collections.Counter", args, node)
 
 
